@@ -6,6 +6,7 @@ import ast
 from .. import constfold, repo, rx, typed
 from ..absval import Node, members
 from ..common import AnalysisError, Check, norm_stmt, parse_py
+from ..ir import Lit, Opt, Tok
 from ..pyflow import Index, own_nodes
 
 
@@ -158,9 +159,14 @@ def rule_f3(chk: Check, ix: Index):
     chk.count("F3-push-pop")
     ok = False
     for n in ast.walk(g.node):
-        if isinstance(n, ast.If) and norm_stmt(n.test) == "token == ':' and state.in_braces() and state.at_parenlev()":
+        if isinstance(n, ast.If) and any(isinstance(c, ast.Call) and norm_stmt(c.func) == "ModeInColon" for st in n.body if not isinstance(st, ast.If) for c in ast.walk(st)):
+            conj = {norm_stmt(v) for v in (n.test.values if isinstance(n.test, ast.BoolOp) and isinstance(n.test.op, ast.And) else [n.test])}
             b = [norm_stmt(s) for s in n.body]
-            ok = len(b) == 1 and b[0].startswith("state.add_prog(start + 1, end, mode=ModeInColon(state.parenlev)")
+            # the token test itself is F7's; here: only directly inside the braces, and the spec starts right after the colon
+            ok = {"state.in_braces()", "state.at_parenlev()"} <= conj and len(conj) == 3 and \
+                sum(1 for x in b if x.startswith("state.add_prog(")) == 1 and \
+                any(x.startswith(("state.add_prog(start + 1, end, mode=ModeInColon(state.parenlev)",
+                                  "state.add_prog(start + 1, start + 1, mode=ModeInColon(state.parenlev)")) for x in b)
     chk.require(ok, "F3-push-pop", "next_psuedo_matches:colon", g.where,
                 "a `:` directly inside the braces (at the recorded depth) must push the format-spec mode starting after the colon")
     # end of the f-string pops the middle mode
@@ -228,6 +234,100 @@ def rule_f4(chk: Check, ir, tr):
                 f"a format spec must be a JoinedStr; the rule returns {sorted(cls)}")
 
 
+def rule_f5(chk: Check, ir, ix: Index, F):
+    """F5–F7: what CPython does to the *text* of an f-string and this code has to do too.
+    F5: literal text (FSTRING_MIDDLE) of a non-raw f-string is escape-decoded before it becomes Constant.value; named unicode
+        escapes (backslash-N-brace) do not open a field.  F6: a `=` debug field contributes the source text of the expression as a Constant
+        in front of the FormattedValue.  F7: a `:` directly inside the braces starts the format spec whatever follows it —
+        every operator lexeme that begins with `:` has to take the colon-entry branch."""
+    from .. import rx
+    sub = parse_py(repo.SUBHEADER)
+    parser = repo.find_class(sub, "Parser")
+    hf = repo.find_func(parser, "handle_fstring")
+    # does handle_fstring post-process its parts?  (a loop or comprehension over the parts parameter)
+    parts_param = [a.arg for a in hf.args.args][2] if len(hf.args.args) > 2 else None
+    post = any(isinstance(n, (ast.For, ast.comprehension)) and parts_param in {x.id for x in ast.walk(n.iter) if isinstance(x, ast.Name)}
+               for n in ast.walk(hf))
+    n_mid = 0
+    for r in ir.rules.values():
+        for i, a in enumerate(r.alts):
+            for it in a.items:
+                if isinstance(it.item, Tok) and it.item.name == "FSTRING_MIDDLE" and it.name and a.action is not None:
+                    n_mid += 1
+                    raw = False
+                    for c in ast.walk(a.action):
+                        if isinstance(c, ast.Call) and norm_stmt(c.func) == "ast.Constant":
+                            for kw in c.keywords:
+                                if kw.arg == "value" and norm_stmt(kw.value) == f"{it.name}.string":
+                                    raw = True
+                    chk.count("F5-text-decoding")
+                    chk.require(not raw or post, "F5-text-decoding", f"{r.name}#alt{i}:FSTRING_MIDDLE", str(a.pos),
+                                "the token text becomes Constant.value as scanned: escapes are not decoded (`f\"a\\nb\"` gives "
+                                "'a\\\\nb', CPython 'a\\nb' with a real newline) and nothing later walks the parts")
+    if not n_mid:
+        raise AnalysisError("F5: no action receives a FSTRING_MIDDLE token")
+    # \N{...}
+    endpats = F.need("endpats")
+    sites = [(f, n, mode, pat, defs) for f, n, mode, pat, defs in add_prog_sites(ix) if mode == "ModeMiddle" and pat is not None]
+    pats = [p for f, n, mode, pat, defs in sites for p in fold_pattern(pat, defs, endpats)]
+    chk.count("F5-text-decoding")
+    opens = []
+    for p in pats:
+        an = rx.Analysis({"scan": p, "named": r"(?:[^\\]|\\[^N])*\\N\{"}, exhaustive=False)
+        opens.append(an.witness_intersection(["scan", "named"]))
+    chk.require(any(w is None for w in opens), "F5-text-decoding", "ModeMiddle:named-unicode-escape", repo.TOKENIZE,
+                f"every literal-part scan pattern ends a match at the brace of a named escape ({opens[0]!r}): `f\"\\N{{DASH}}\"` is "
+                f"scanned as the text '\\N' and a field `{{DASH}}`")
+    # F6
+    r = ir.rules.get("fstring_replacement_field")
+    if r is None:
+        raise AnalysisError("rule fstring_replacement_field vanished")
+    n_dbg = 0
+    for i, a in enumerate(r.alts):
+        dbg = [it.name for it in a.items if it.name and isinstance(it.item, Opt) and isinstance(it.item.item, Lit) and it.item.item.value == "="]
+        if not dbg or a.action is None:
+            continue
+        n_dbg += 1
+        uses = 0
+        for c in ast.walk(a.action):
+            if isinstance(c, ast.Call):
+                for kw in c.keywords:
+                    if kw.arg != "conversion" and any(isinstance(x, ast.Name) and x.id in dbg for x in ast.walk(kw.value)):
+                        uses += 1
+                for arg in c.args:
+                    if any(isinstance(x, ast.Name) and x.id in dbg for x in ast.walk(arg)):
+                        uses += 1
+        chk.count("F6-debug-text")
+        chk.require(uses > 0, "F6-debug-text", f"fstring_replacement_field#alt{i}", str(a.pos),
+                    f"the `=` of a debug field (`{dbg[0]}`) only selects the conversion; the source text of the expression is not "
+                    f"emitted: `f\"{{x=}}\"` gives [FormattedValue(x, 'r')], CPython [Constant('x='), FormattedValue(x, 'r')]")
+    if not n_dbg:
+        raise AnalysisError("F6: no alternative of fstring_replacement_field captures an optional '='")
+    # F7
+    g = ix.get("next_psuedo_matches")
+    ops = [o for o in F.need("OPS") if o.startswith(":")]
+    found = False
+    for n in ast.walk(g.node):
+        if isinstance(n, ast.If) and any(isinstance(c, ast.Call) and norm_stmt(c.func) == "ModeInColon" for st in n.body if not isinstance(st, ast.If) for c in ast.walk(st)):
+            found = True
+            cmps = [c for c in (n.test.values if isinstance(n.test, ast.BoolOp) and isinstance(n.test.op, ast.And) else [n.test])
+                    if isinstance(c, ast.Compare) and len({x.id for x in ast.walk(c) if isinstance(x, ast.Name)}) == 1]
+            if len(cmps) != 1:
+                chk.count("F7-colon-lexemes")
+                chk.undecided("F7-colon-lexemes", "colon-entry", f"{g.rel}:{n.lineno}", "the colon test is not a single comparison on the token text")
+                continue
+            var = next(x.id for x in ast.walk(cmps[0]) if isinstance(x, ast.Name))
+            for o in sorted(ops):
+                chk.count("F7-colon-lexemes")
+                ok = bool(constfold.fold_expr(cmps[0], {var: o}))
+                chk.require(ok, "F7-colon-lexemes", f"colon-entry:{o}", f"{g.rel}:{n.lineno}",
+                            f"the operator lexeme {o!r} starts with a colon but fails `{norm_stmt(cmps[0])}`: directly inside the braces it "
+                            f"is kept as an operator instead of starting the format spec — `f'{{x:=5}}'` is a SyntaxError here, "
+                            f"CPython formats x with spec '=5'")
+    if not found:
+        raise AnalysisError("F7: the branch that enters ModeInColon was not found")
+
+
 def run(chk: Check):
     chk.explanation = (
         "The f-string scanner is a hand-written mode machine; this check decides its tables and pairing, not agreement with "
@@ -244,7 +344,17 @@ def run(chk: Check):
     rule_f2(chk, F, chk.tier == "thorough")
     rule_f3(chk, ix)
     rule_f4(chk, repo.ir_x(), typed.run())
+    rule_f5(chk, repo.ir_x(), ix, F)
+    # f-string tokens are accumulated text (C08 L1/L2) and their trees carry spans (location rules of C01/C04): necessary here too
+    from .c08 import rule_l1, rule_l2
+    rule_l1(chk, ix)
+    rule_l2(chk, ix)
+    typed.run().feed(chk, {"A5-loc-key": "A5-loc-key", "A5-loc-pair": "A5-loc-pair", "S4-location": "S4-location",
+                           "S1-joinedstr-bytes": "S1-joinedstr-bytes", "S1-field-kind": "S1-field-kind"})
     chk.floor("F1-mode-pattern", 3)
     chk.floor("F2-scan-pattern", 5)
     chk.floor("F3-push-pop", 5)
     chk.floor("F4-grammar-side", 4)
+    chk.floor("F5-text-decoding", 3)
+    chk.floor("F6-debug-text", 1)
+    chk.floor("F7-colon-lexemes", 2)
